@@ -7,8 +7,10 @@ import (
 	"fmt"
 
 	"github.com/apache/skywalking-banyandb/api/common"
+	databasev1 "github.com/apache/skywalking-banyandb/api/proto/banyandb/database/v1"
 	modelv1 "github.com/apache/skywalking-banyandb/api/proto/banyandb/model/v1"
 	"github.com/apache/skywalking-banyandb/banyand/protector"
+	"github.com/apache/skywalking-banyandb/pkg/index"
 	"github.com/apache/skywalking-banyandb/pkg/logger"
 	pbv1 "github.com/apache/skywalking-banyandb/pkg/pb/v1"
 	"github.com/apache/skywalking-banyandb/pkg/query/model"
@@ -112,5 +114,77 @@ func VerifC09TSQuery(parts [][]VerifC09Elem, sids []uint64, minTS, maxTS int64, 
 		}
 		got = append(got, r.Timestamps...)
 	}
+	return got, nil
+}
+
+// VerifC09IdxElem is one stored element; VerifC09IdxDoc one entry of the ordered index iterator.
+type VerifC09IdxElem struct {
+	Sid, ID uint64
+	Ts      int64
+}
+
+type verifC09SliceIter struct {
+	docs []*index.DocumentResult
+	i    int
+}
+
+func (s *verifC09SliceIter) Next() bool {
+	if s.i >= len(s.docs) {
+		return false
+	}
+	s.i++
+	return true
+}
+func (s *verifC09SliceIter) Val() *index.DocumentResult { return s.docs[s.i-1] }
+func (s *verifC09SliceIter) Close() error               { return nil }
+
+// VerifC09IdxQuery runs the real index-ordered stream result (idxResult.Pull: loadSortingData -> scanParts -> load ->
+// mergeByTagValue) over a tsTable whose snapshot holds one real mem part per input slice; the ordered index is the given
+// iterator (element ids in sort-key order, with the timestamp/series the index stores). Returns the element ids of every
+// pulled page, pages separated by 0.
+func VerifC09IdxQuery(parts [][]VerifC09IdxElem, iter []VerifC09IdxElem, maxElementSize int) ([]uint64, error) {
+	snp := &snapshot{ref: 1}
+	for pi, rows := range parts {
+		es := &elements{}
+		for _, r := range rows {
+			es.seriesIDs = append(es.seriesIDs, common.SeriesID(r.Sid))
+			es.timestamps = append(es.timestamps, r.Ts)
+			es.elementIDs = append(es.elementIDs, r.ID)
+			es.tagFamilies = append(es.tagFamilies, []tagValues{{
+				tag: "singleTag", values: []*tagValue{
+					{tag: "strTag", valueType: pbv1.ValueTypeStr, value: []byte("v"), valueArr: nil},
+				},
+			}})
+		}
+		mp := generateMemPart()
+		mp.mustInitFromElements(es)
+		p := openMemPart(mp)
+		p.partMetadata.ID = uint64(pi + 1)
+		snp.parts = append(snp.parts, newPartWrapper(mp, p))
+	}
+	tst := &tsTable{snapshot: snp}
+	sm := &stream{schema: &databasev1.Stream{Entity: &databasev1.Entity{TagNames: []string{"svc"}}}}
+	sm.indexSchema.Store(indexSchema{})
+	it := &verifC09SliceIter{}
+	for _, d := range iter {
+		it.docs = append(it.docs, &index.DocumentResult{DocID: d.ID, SeriesID: common.SeriesID(d.Sid), Timestamp: d.Ts, SortedValue: []byte{1}})
+	}
+	qr := &idxResult{pm: protector.Nop{}, sm: sm, tabs: []*tsTable{tst}, asc: true, sortingIter: it}
+	qr.qo.MaxElementSize = maxElementSize
+	qr.qo.TagProjection = []model.TagProjection{{Family: "singleTag", Names: []string{"strTag"}}}
+	qr.qo.schemaTagTypes = map[string]pbv1.ValueType{"strTag": pbv1.ValueTypeStr}
+	var got []uint64
+	for {
+		r := qr.Pull(context.Background())
+		if r == nil {
+			break
+		}
+		if r.Error != nil {
+			return nil, fmt.Errorf("pull: %w", r.Error)
+		}
+		got = append(got, r.ElementIDs...)
+		got = append(got, 0)
+	}
+	qr.releaseParts()
 	return got, nil
 }
